@@ -307,6 +307,8 @@ class SymEnv(BaseEnv):
         b = self.arr(b)
         if tuple(a.shape) != tuple(b.shape):
             m = self._any_model()
+            if m is None:
+                return self._record(label, 'unknown', None, 'shape mismatch on a path without a witness')
             return self._record(label, 'violated', m, 'shape %s vs %s' % (list(a.shape), list(b.shape)))
         cl = diff_clauses(a, b)
         if not cl:
@@ -386,11 +388,17 @@ class SymEnv(BaseEnv):
         if bool(cond):
             cur().stats.final_unsat += 1
             return self._record(label, 'ok', detail='concrete')
+        m = self._any_model()
+        if m is None:
+            # no witness for this path (its feasibility was never established: solver time-out on the way): inconclusive, not a finding
+            cur().stats.final_unknown += 1
+            return self._record(label, 'unknown', None, 'condition is false on a path without a witness')
         cur().stats.final_sat += 1
-        return self._record(label, 'violated', self._any_model(), 'condition is false on this path')
+        return self._record(label, 'violated', m, 'condition is false on this path')
 
     def fail(self, label, detail):
-        return self._record(label, 'violated', self._any_model(), detail)
+        m = self._any_model()
+        return self._record(label, 'violated' if m is not None else 'unknown', m, detail)
 
 
 class ExactEnv(BaseEnv):
